@@ -348,6 +348,11 @@ Section Refinement.
   Variable assign_self_safe : bool.
   Variable concat_self_safe : bool.
   Variable format_self_safe : bool.
+  Variable resize_same_returns : bool.
+  Variable resize_shrinks : nat -> nat -> bool.
+  Variable resize_fill : Z -> Z -> Z.
+  Variable format_cap : nat.
+  Variable format_heap_when : nat -> nat -> bool.
   (* what the proofs need from the C text: every realloc leaves room for the terminator,
      String_Rem moves the tail behind the match (with its terminator) and checks for NULL *)
   Hypothesis Hassign : forall vl, vl + 1 <= assign_alloc vl.
@@ -361,11 +366,21 @@ Section Refinement.
   Hypothesis Hcsafe : concat_self_safe = true.
   (* needed only for print_to(s, pos, "..%s..", .., s, ..) *)
   Hypothesis Hfsafe : format_self_safe = true.
+  (* String_Resize, for EVERY policy with: the truncating path only when n <= len, the filling
+     path only when len <= n, and the filled bytes inside the new block *)
+  Hypothesis Hshr : forall n m, resize_shrinks n m = true -> n <= m.
+  Hypothesis Hgrow : forall n m, resize_shrinks n m = false ->
+    m <= n /\ (0 <= resize_fill (Z.of_nat n) (Z.of_nat m))%Z /\
+    m + Z.to_nat (resize_fill (Z.of_nat n) (Z.of_nat m)) <= resize_alloc n.
+  (* String_Format_To: the local buffer is used only for texts that fit with their terminator *)
+  Hypothesis Hlocal : forall size, format_heap_when size format_cap = false -> size + 1 <= format_cap.
 
   Notation step := (m_step assign_alloc concat_alloc resize_alloc format_alloc rem_count rem_checks
-                           assign_self_safe concat_self_safe format_self_safe).
+                           assign_self_safe concat_self_safe format_self_safe
+                           resize_same_returns resize_shrinks resize_fill format_cap format_heap_when).
   Notation run := (m_run assign_alloc concat_alloc resize_alloc format_alloc rem_count rem_checks
-                         assign_self_safe concat_self_safe format_self_safe).
+                         assign_self_safe concat_self_safe format_self_safe
+                         resize_same_returns resize_shrinks resize_fill format_cap format_heap_when).
 
   Lemma assign_refines b v : nulfree v -> exists b', m_assign assign_alloc b v = Some b' /\ repr b' v.
   Proof.
@@ -445,21 +460,28 @@ Section Refinement.
   Qed.
 
   Lemma resize_refines b s n : repr b s ->
-    exists b', m_resize resize_alloc b n = Some b' /\ repr b' (firstn n s).
+    exists b', m_resize resize_alloc resize_same_returns resize_shrinks resize_fill b n = Some b' /\
+               repr b' (firstn n s).
   Proof.
     intros Hr. unfold m_resize. rewrite (repr_c_strlen _ _ Hr).
-    destruct Hr as [Hs [t ->]]. pose proof (Hresize n) as HN.
-    destruct (Nat.ltb_spec (length s) n) as [Hlt|Hge].
-    - destruct (realloc_repr s t (resize_alloc n)) as [t' [E L]]; [lia|]. rewrite E.
-      rewrite write_after by (rewrite repeat_length; cbn [length]; lia).
-      eexists. split; [reflexivity|]. rewrite firstn_all2 by lia.
-      destruct (n - length s) as [|k] eqn:Ek; [lia|]. cbn [repeat map skipn app].
-      split; [assumption|]. eexists. reflexivity.
-    - assert (Hl : n = length (firstn n s)) by (rewrite firstn_length; lia).
+    destruct (resize_same_returns && (n =? length s)) eqn:Esame.
+    { apply andb_true_iff in Esame as [_ En]. apply Nat.eqb_eq in En. subst n.
+      exists b. split; [reflexivity|]. rewrite firstn_all. exact Hr. }
+    clear Esame. destruct Hr as [Hs [t ->]]. pose proof (Hresize n) as HN.
+    destruct (resize_shrinks n (length s)) eqn:Eshr.
+    - apply Hshr in Eshr.
+      assert (Hl : n = length (firstn n s)) by (rewrite firstn_length; lia).
       replace (map Some s) with (map Some (firstn n s ++ skipn n s)) by (rewrite firstn_skipn; reflexivity).
       destruct (write_cut (firstn n s) (skipn n s) t (resize_alloc n) [] n Hl) as [tail E]; [cbn [length]; lia|].
       cbn [app] in E. rewrite E. eexists. split; [reflexivity|].
       apply repr_build0. apply nulfree_firstn. assumption.
+    - apply Hgrow in Eshr. destruct Eshr as [Hmn [Hf0 Hfit]].
+      destruct (Z.ltb_spec (resize_fill (Z.of_nat n) (Z.of_nat (length s))) 0) as [?|_]; [lia|].
+      destruct (realloc_repr s t (resize_alloc n)) as [t' [E L]]; [lia|]. rewrite E.
+      rewrite write_after by (rewrite repeat_length; cbn [length]; lia).
+      eexists. split; [reflexivity|]. rewrite firstn_all2 by lia.
+      destruct (Z.to_nat (resize_fill (Z.of_nat n) (Z.of_nat (length s)))) as [|k]; cbn [repeat map skipn app];
+        (split; [assumption|]; eexists; reflexivity).
   Qed.
 
   Lemma rem_refines b s v : repr b s -> nulfree v ->
@@ -490,10 +512,14 @@ Section Refinement.
   Qed.
 
   Lemma format_refines b s pos text : repr b s -> nulfree text ->
-    exists b', m_format_to format_alloc b pos text = Some b' /\
+    exists b', m_format_to format_alloc format_cap format_heap_when b pos text = Some b' /\
                repr b' (if pos <=? length s then firstn pos s ++ text else s).
   Proof.
     intros Hr Ht. unfold m_format_to. pose proof (Hformat pos (length text)) as HN.
+    assert (Hpath : format_heap_when (length text) format_cap || (length text + 1 <=? format_cap) = true).
+    { destruct (format_heap_when (length text) format_cap) eqn:Eh; [reflexivity|].
+      apply Hlocal in Eh. cbn [orb]. apply Nat.leb_le. exact Eh. }
+    rewrite Hpath.
     destruct Hr as [Hs [t ->]].
     destruct (Nat.leb_spec pos (length s)) as [Hle|Hgt].
     - assert (Hl : pos = length (firstn pos s)) by (rewrite firstn_length; lia).
@@ -513,7 +539,7 @@ Section Refinement.
   Qed.
 
   Lemma print_refines ps : forall b s pos, repr b s -> Forall piece_ok ps ->
-    exists b', m_print_to format_alloc format_self_safe b pos ps = Some (b', snd (spec_print s pos ps)) /\
+    exists b', m_print_to format_alloc format_self_safe format_cap format_heap_when b pos ps = Some (b', snd (spec_print s pos ps)) /\
                repr b' (fst (spec_print s pos ps)).
   Proof.
     induction ps as [|p ps IH]; intros b s pos Hr Hok; cbn [m_print_to spec_print].
@@ -663,10 +689,14 @@ From CelloV Require Import Generated.
 Definition c_new := m_new string_assign_alloc.
 Definition c_step := m_step string_assign_alloc string_concat_alloc string_resize_alloc
                             string_format_alloc string_rem_count string_rem_checks
-                            string_assign_self_safe string_concat_self_safe string_format_self_safe.
+                            string_assign_self_safe string_concat_self_safe string_format_self_safe
+                            string_resize_same_returns string_resize_shrinks string_resize_fill
+                            string_format_local_cap string_format_heap_when.
 Definition c_run := m_run string_assign_alloc string_concat_alloc string_resize_alloc
                           string_format_alloc string_rem_count string_rem_checks
-                          string_assign_self_safe string_concat_self_safe string_format_self_safe.
+                          string_assign_self_safe string_concat_self_safe string_format_self_safe
+                            string_resize_same_returns string_resize_shrinks string_resize_fill
+                            string_format_local_cap string_format_heap_when.
 
 (* the rules re-extracted from src/String.c (Generated.v) are the ones the proofs need *)
 Lemma gen_assign : forall vl, vl + 1 <= string_assign_alloc vl.
@@ -689,17 +719,46 @@ Lemma gen_csafe : string_concat_self_safe = true.
 Proof. reflexivity. Qed.
 Lemma gen_fsafe : string_format_self_safe = true.
 Proof. reflexivity. Qed.
+Lemma gen_shr : forall n m, string_resize_shrinks n m = true -> n <= m.
+Proof.
+  intros n m. unfold string_resize_shrinks.
+  repeat match goal with
+         | |- context [?a <=? ?b] => destruct (Nat.leb_spec a b)
+         | |- context [?a <? ?b] => destruct (Nat.ltb_spec a b)
+         | |- context [?a =? ?b] => destruct (Nat.eqb_spec a b)
+         end; cbn; intros; try discriminate; lia.
+Qed.
+Lemma gen_grow : forall n m, string_resize_shrinks n m = false ->
+  m <= n /\ (0 <= string_resize_fill (Z.of_nat n) (Z.of_nat m))%Z /\
+  m + Z.to_nat (string_resize_fill (Z.of_nat n) (Z.of_nat m)) <= string_resize_alloc n.
+Proof.
+  intros n m. unfold string_resize_shrinks, string_resize_fill, string_resize_alloc.
+  repeat match goal with
+         | |- context [?a <=? ?b] => destruct (Nat.leb_spec a b)
+         | |- context [?a <? ?b] => destruct (Nat.ltb_spec a b)
+         | |- context [?a =? ?b] => destruct (Nat.eqb_spec a b)
+         end; cbn; intros; try discriminate; lia.
+Qed.
+Lemma gen_local : forall size, string_format_heap_when size string_format_local_cap = false ->
+  size + 1 <= string_format_local_cap.
+Proof.
+  intros size. unfold string_format_heap_when, string_format_local_cap.
+  repeat match goal with
+         | |- context [?a <=? ?b] => destruct (Nat.leb_spec a b)
+         | |- context [?a <? ?b] => destruct (Nat.ltb_spec a b)
+         end; cbn; intros; try discriminate; lia.
+Qed.
 
 Theorem c_step_refines b s o : repr b s -> op_ok o ->
   exists b', c_step b o = (b', snd (spec_step s o)) /\ repr b' (fst (spec_step s o)).
-Proof. exact (step_refines _ _ _ _ _ _ _ _ _ gen_assign gen_concat gen_resize gen_format gen_rem gen_chk gen_asafe gen_csafe gen_fsafe b s o). Qed.
+Proof. exact (step_refines _ _ _ _ _ _ _ _ _ string_resize_same_returns _ _ _ _ gen_assign gen_concat gen_resize gen_format gen_rem gen_chk gen_asafe gen_csafe gen_fsafe gen_shr gen_grow gen_local b s o). Qed.
 
 Theorem c_history_refines v0 ops : nulfree v0 -> Forall op_ok ops ->
   exists b0 bf, c_new v0 = Some b0 /\ c_run b0 ops = (fst (spec_run v0 ops), bf) /\
                 repr bf (snd (spec_run v0 ops)).
 Proof.
   intros Hv Hok. destruct (new_refines _ gen_assign v0 Hv) as [b0 [E R]].
-  destruct (run_refines _ _ _ _ _ _ _ _ _ gen_assign gen_concat gen_resize gen_format gen_rem gen_chk gen_asafe gen_csafe gen_fsafe ops b0 v0 R Hok)
+  destruct (run_refines _ _ _ _ _ _ _ _ _ string_resize_same_returns _ _ _ _ gen_assign gen_concat gen_resize gen_format gen_rem gen_chk gen_asafe gen_csafe gen_fsafe gen_shr gen_grow gen_local ops b0 v0 R Hok)
     as [bf [Er Rf]].
   exists b0, bf. split; [exact E|]. split; [exact Er|exact Rf].
 Qed.
@@ -708,7 +767,7 @@ Theorem c_history_no_crash v0 ops : nulfree v0 -> Forall op_ok ops ->
   exists b0, c_new v0 = Some b0 /\ ~ In SCrash (fst (c_run b0 ops)).
 Proof.
   intros Hv Hok. destruct (new_refines _ gen_assign v0 Hv) as [b0 [E R]]. exists b0. split; [exact E|].
-  exact (run_no_crash _ _ _ _ _ _ _ _ _ gen_assign gen_concat gen_resize gen_format gen_rem gen_chk gen_asafe gen_csafe gen_fsafe ops b0 v0 R Hok).
+  exact (run_no_crash _ _ _ _ _ _ _ _ _ string_resize_same_returns _ _ _ _ gen_assign gen_concat gen_resize gen_format gen_rem gen_chk gen_asafe gen_csafe gen_fsafe gen_shr gen_grow gen_local ops b0 v0 R Hok).
 Qed.
 
 Lemma new_empty_repr : repr m_new_empty [].
@@ -718,7 +777,7 @@ Theorem c_history_refines_from_empty ops : Forall op_ok ops ->
   exists bf, c_run m_new_empty ops = (fst (spec_run [] ops), bf) /\ repr bf (snd (spec_run [] ops)).
 Proof.
   intros Hok.
-  exact (run_refines _ _ _ _ _ _ _ _ _ gen_assign gen_concat gen_resize gen_format gen_rem gen_chk gen_asafe gen_csafe gen_fsafe
+  exact (run_refines _ _ _ _ _ _ _ _ _ string_resize_same_returns _ _ _ _ gen_assign gen_concat gen_resize gen_format gen_rem gen_chk gen_asafe gen_csafe gen_fsafe gen_shr gen_grow gen_local
            ops m_new_empty [] new_empty_repr Hok).
 Qed.
 
@@ -773,8 +832,8 @@ Proof.
 Qed.
 
 (* before the repair of String_Format_To: the target as a "%s" argument is read after the realloc *)
-Theorem format_self_old_shape_undefined (b : list (option nat)) (fa : nat -> nat -> nat) pos r :
-  m_print_to fa false b pos (PSelf :: r) = None.
+Theorem format_self_old_shape_undefined (b : list (option nat)) (fa : nat -> nat -> nat) cap hw pos r :
+  m_print_to fa false cap hw b pos (PSelf :: r) = None.
 Proof. reflexivity. Qed.
 
 (* ------------------------------------------------------------------ "%li" rendering: fuel adequacy *)
@@ -845,3 +904,75 @@ Proof.
     pose proof (dec_digits_are_digits (S (N.to_nat (N.log2 (Npos p)))) (Npos p) [] (Forall_nil _)) as D.
     fold (dec_of_N (Npos p)) in D. rewrite V. split; [reflexivity|]. split; [lia|exact D].
 Qed.
+
+(* ------------------------------------------------------------------ why further code shapes denote the same model
+   (tools/genx_str.py maps them to the same Generated.v definitions; see design.d/C16.md) *)
+
+(* String_Rem may return at once for an empty needle: the general path moves the whole string
+   onto itself *)
+Theorem rem_empty_needle_is_noop rc (Hrc : forall hl pl nl, rc hl pl nl = (pl - nl + 1)%Z) chk b s :
+  repr b s -> m_rem rc chk b [] = (b, SUnit).
+Proof.
+  intros Hr. unfold m_rem. rewrite (repr_c_str _ _ Hr).
+  assert (E : find_sub [] s = Some 0) by (destruct s; reflexivity). rewrite E, Hrc.
+  rewrite Nat.sub_0_r. cbn [length Nat.add].
+  destruct (Z.ltb_spec (Z.of_nat (length s) - Z.of_nat 0 + 1) 0) as [?|_]; [lia|].
+  rewrite memmove_id; [reflexivity|].
+  destruct Hr as [_ [t ->]]. rewrite app_length, map_length. cbn [length]. lia.
+Qed.
+
+(* `strlen(pos + strlen(needle))` read as `strlen(pos) - strlen(needle)`: pos is where strstr
+   found the needle, so the needle's bytes are there *)
+Theorem tail_length_after_match v h i : find_sub v h = Some i ->
+  length (skipn (i + length v) h) = (length h - i) - length v.
+Proof.
+  intros H. apply find_sub_some in H. destruct H as [l [r [-> <-]]].
+  rewrite skipn_length, !app_length. lia.
+Qed.
+
+Lemma skipn_skipn' (T : Type) x : forall y (l : list T), skipn x (skipn y l) = skipn (x + y) l.
+Proof.
+  induction y as [|y IH]; intros l; [rewrite Nat.add_0_r; reflexivity|].
+  destruct l; [rewrite !skipn_nil; reflexivity|]. rewrite Nat.add_succ_r. cbn [skipn]. apply IH.
+Qed.
+
+(* String_Concat may copy the terminator along (memmove of m+1 bytes) instead of m bytes and an
+   explicit store: with the String itself as source the byte behind the n characters IS the
+   terminator, and memmove copies as if through a temporary *)
+Theorem concat_self_move_with_terminator (s : list nat) t : length s <= length t ->
+  let b := map Some s ++ Some 0 :: t in
+  let n := length s in
+  memmove b n 0 (n + 1) =
+  match memmove b n 0 n with Some b' => write b' (n + n) [0] | None => None end.
+Proof.
+  intros Ht b n. subst b n.
+  change (Some 0 :: t) with ([Some 0] ++ t).
+  rewrite <- (map_length (@Some nat) s).
+  rewrite memmove_dup by (rewrite app_length, map_length; cbn [length]; lia).
+  set (A := map Some s). 
+  assert (Hw : write (A ++ A ++ skipn (length A) ([Some 0] ++ t)) (length A + length A) [0]
+               = Some ((A ++ A) ++ map Some [0] ++ skipn 1 (skipn (length A) ([Some 0] ++ t)))).
+  { rewrite app_assoc. rewrite <- (app_length A A). apply write_prefix.
+    rewrite skipn_length, app_length. unfold A. rewrite map_length. cbn [length]. lia. }
+  rewrite Hw. clear Hw.
+  assert (HA : length A = length s) by (unfold A; apply map_length).
+  unfold memmove.
+  assert (L1 : (0 + (length A + 1) <=? length (A ++ [Some 0] ++ t)) = true)
+    by (apply Nat.leb_le; rewrite !app_length; cbn [length]; lia).
+  assert (L2 : (length A + (length A + 1) <=? length (A ++ [Some 0] ++ t)) = true)
+    by (apply Nat.leb_le; rewrite !app_length; cbn [length]; lia).
+  rewrite L1, L2. cbn [andb]. f_equal. rewrite skipn_O.
+  assert (P1 : firstn (length A) (A ++ [Some 0] ++ t) = A).
+  { rewrite firstn_app, Nat.sub_diag, firstn_all. cbn [firstn]. apply app_nil_r. }
+  assert (P2 : firstn (length A + 1) (A ++ [Some 0] ++ t) = A ++ [Some 0]).
+  { rewrite firstn_app, firstn_all2 by lia. replace (length A + 1 - length A) with 1 by lia. reflexivity. }
+  assert (P3 : skipn (length A + (length A + 1)) (A ++ [Some 0] ++ t) = skipn 1 (skipn (length A) ([Some 0] ++ t))).
+  { rewrite skipn_skipn', skipn_app. rewrite (skipn_all2 A) by lia. cbn [app]. f_equal. lia. }
+  rewrite P1, P2, P3. rewrite <- !app_assoc. reflexivity.
+Qed.
+
+(* String_Format_To with a local buffer of 64 bytes and the heap path only for size > 64 (the
+   seeded off-by-one): a piece of exactly 64 characters copies 65 bytes out of the 64-byte array *)
+Theorem format_local_buffer_off_by_one_undefined fa (b : list (option nat)) pos text :
+  length text = 64 -> m_format_to fa 64 (fun size cap => cap <? size) b pos text = None.
+Proof. intros H. unfold m_format_to. rewrite H. reflexivity. Qed.
